@@ -225,6 +225,23 @@ def probes():
     }
 
 
+EXT_E1 = "extension-definition--11111111-1111-4111-8111-111111111111"
+EXT_E2 = "extension-definition--22222222-2222-4222-8222-222222222222"
+EXT_TOPLEVEL = {EXT_E1: ["e1_rank", "e1_note"], EXT_E2: ["e2_rank"]}
+_REGISTERED = []
+
+
+def register_toplevel_extensions():
+    if _REGISTERED:
+        return
+    P = stix2.properties
+    stix2.v21.CustomExtension(EXT_E1, [("e1_rank", P.IntegerProperty()), ("e1_note", P.StringProperty())])(
+        type("RegTopE1", (object,), {"extension_type": "toplevel-property-extension"}))
+    stix2.v21.CustomExtension(EXT_E2, [("e2_rank", P.IntegerProperty())])(
+        type("RegTopE2", (object,), {"extension_type": "toplevel-property-extension"}))
+    _REGISTERED.append(True)
+
+
 def pyify(x):
     """{"__py__": tag, "items": [...]} -> the Python value it stands for (harness/stixgen.py:py_value_cases)."""
     if isinstance(x, dict):
@@ -248,6 +265,8 @@ def pyify(x):
                 return datetime.datetime(*items)
             if tag == "date":
                 return datetime.date(*items[:3])
+            if tag == "datetime-offset":
+                return datetime.datetime(*items, tzinfo=datetime.timezone(datetime.timedelta(minutes=x.get("offset", 0))))
             if tag == "stix":
                 # an already constructed object of a library class (possibly built with allow_custom)
                 return find_class(x["cid"])(allow_custom=x.get("allow", False), **pyify(x.get("kwargs", {})))
@@ -284,6 +303,18 @@ def run(case):
             cls = find_class(case["cid"])
             obj = cls(allow_custom=case.get("allow", False), interoperability=case.get("interop", False), **case["data"])
             return result_of(obj, case)
+        if op == "ext-history":
+            # two REGISTERED toplevel-property-extensions (registered in this process only, on first use), then the
+            # given dictionaries parsed in order, strict
+            register_toplevel_extensions()
+            out = []
+            for d in case["steps"]:
+                try:
+                    o = stix2.parse(d, allow_custom=False)
+                    out.append({"r": "OK", "ser": unmark_json(json.loads(o.serialize()))})
+                except Exception as e:  # noqa: BLE001
+                    out.append({"r": "ERR " + exc_name(e)})
+            return {"r": "HISTORY", "steps": out}
         if op == "clean":
             # unit level: one Property instance of the live class table
             slot = case["slot"]
